@@ -670,6 +670,74 @@ pub fn run_c01n(ctx: &mut Ctx) {
     ctx.emit("c01n", &["-"], &obs);
 }
 
+/// c04p: handler panics on `n` connections at once, on a server whose handler pool has exactly `n` threads, while a plain
+/// request and an upload of other connections are queued behind them.  Everyone must be answered (the panickers with 500),
+/// and the upload's file must be gone.
+pub fn case_pool(ctx: &mut Ctx, n: &str) {
+    let nn: usize = n.parse().unwrap();
+    let obs = guard(move || {
+        use std::sync::atomic::{AtomicUsize, Ordering};
+        static ENTERED: AtomicUsize = AtomicUsize::new(0);
+        static CALLS: AtomicUsize = AtomicUsize::new(0);
+        static RELEASE: std::sync::atomic::AtomicBool = std::sync::atomic::AtomicBool::new(false);
+        ENTERED.store(0, Ordering::SeqCst);
+        CALLS.store(0, Ordering::SeqCst);
+        RELEASE.store(false, Ordering::SeqCst);
+        safina::timer::start_timer_thread();
+        let ex = safina::executor::Executor::new(2, nn).unwrap();
+        let dir = super::c06::scratch_dir().join(format!("c04p-{nn}"));
+        let _ = std::fs::remove_dir_all(&dir);
+        std::fs::create_dir_all(&dir).unwrap();
+        let handler = |req: Request| {
+            CALLS.fetch_add(1, Ordering::SeqCst);
+            let path = req.url.path().to_string();
+            if path.starts_with("/panic") {
+                ENTERED.fetch_add(1, Ordering::SeqCst);
+                let deadline = std::time::Instant::now() + Duration::from_secs(10);
+                while !RELEASE.load(Ordering::SeqCst) && std::time::Instant::now() < deadline { std::thread::sleep(Duration::from_millis(2)); }
+                panic!("scripted handler panic");
+            }
+            if path == "/up" {
+                return if req.body.is_pending() { Response::get_body_and_reprocess(1_000_000) } else { Response::text(200, format!("up-{}", req.body.len().unwrap_or(0))) };
+            }
+            Response::text(200, "q")
+        };
+        let b = HttpServerBuilder::new().max_conns(32).small_body_len(100).receive_large_bodies(&dir).listen_addr("127.0.0.1:0".parse().unwrap());
+        let (addr, stopped) = ex.block_on(b.spawn(handler)).unwrap();
+        std::mem::forget(stopped);
+        let status = |c: &mut TcpStream| -> String {
+            let _ = c.set_read_timeout(Some(Duration::from_secs(4)));
+            let mut acc = Vec::new();
+            if read_one_response(c, &mut acc) { String::from_utf8_lossy(&acc).split(' ').nth(1).unwrap_or("?").to_string() } else { "none".to_string() }
+        };
+        let mut panickers: Vec<TcpStream> = (0..nn).map(|i| { let mut c = TcpStream::connect(addr).unwrap(); c.write_all(format!("GET /panic/{i} HTTP/1.1\r\n\r\n").as_bytes()).unwrap(); c }).collect();
+        let t0 = std::time::Instant::now();
+        while ENTERED.load(Ordering::SeqCst) < nn && t0.elapsed() < Duration::from_secs(5) { std::thread::sleep(Duration::from_millis(2)); }
+        // every thread of the pool is inside a handler now: these two are queued
+        let mut q = TcpStream::connect(addr).unwrap();
+        q.write_all(b"GET /q HTTP/1.1\r\n\r\n").unwrap();
+        let mut u = TcpStream::connect(addr).unwrap();
+        u.write_all(b"POST /up HTTP/1.1\r\ncontent-length: 300\r\n\r\n").unwrap();
+        u.write_all(&[b'u'; 300]).unwrap();
+        std::thread::sleep(Duration::from_millis(60));
+        RELEASE.store(true, Ordering::SeqCst);
+        let a: Vec<String> = panickers.iter_mut().map(|c| status(c)).collect();
+        let qs = status(&mut q);
+        let us = status(&mut u);
+        drop(panickers); drop(q); drop(u);
+        let mut files = count_files(&Some(dir.clone()));
+        for _ in 0..200 { if files == 0 { break; } std::thread::sleep(Duration::from_millis(2)); files = count_files(&Some(dir.clone())); }
+        format!("a={} q={qs} u={us} files={files} calls={}", a.join(","), CALLS.load(Ordering::SeqCst))
+    });
+    ctx.emit("c04p", &[n], &obs);
+}
+
+pub fn run_c04p(ctx: &mut Ctx) {
+    for (i, n) in [1usize, 2, 3].iter().enumerate() {
+        if ctx.mine(i as u64) { case_pool(ctx, &n.to_string()); }
+    }
+}
+
 /// c01l: requests that cannot be read (and ordinary ones) while the application's logger has stopped: the connection task
 /// must still answer with the error's response — never die silently.
 pub fn run_c01l(ctx: &mut Ctx) {
